@@ -16,13 +16,18 @@ def main():
     results = {}
     if want and os.path.exists("/verif/neutral/results.json"):
         results = json.load(open("/verif/neutral/results.json"))
-    for patch in sorted(glob.glob("/verif/neutral/[NM]*/patch*.diff")):
+    for patch in sorted(glob.glob("/verif/neutral/[NMF]*/patch*.diff")):
         g = patch.split("/")[-2]; name = g + "/" + os.path.basename(patch)
         if want and g not in want: continue
         rc, out = sh("git apply --check %s" % patch)
         if rc != 0:
-            results[name] = {"applies": False}; print(name, "does not apply"); continue
-        sh("git apply %s" % patch)
+            rc, out = sh("git apply --3way %s" % patch)
+            if rc != 0 or "conflicts" in out:
+                sh("git reset -q --hard && git clean -fdq")
+                results[name] = {"applies": False}; print(name, "does not apply"); continue
+            sh("git reset -q")
+        else:
+            sh("git apply %s" % patch)
         try:
             rc, out = sh("go build ./...")
             if rc != 0:
@@ -30,14 +35,16 @@ def main():
             def run(cid):
                 rc, out = sh("./bin/fv check %s" % cid, cwd="/verif")
                 lines = [l.strip()[:400] for l in out.splitlines() if (l.startswith("  ") and "[" in l and "KNOWN" not in l) or l.strip().startswith("key:")]
-                return cid, len([l for l in out.splitlines() if l.startswith("VIOLATION")]), lines[:8]
+                und = [l.strip()[:200] for l in out.splitlines() if l.startswith("UNDECIDED")]
+                return cid, len([l for l in out.splitlines() if l.startswith("VIOLATION")]), lines[:8], und[:6]
             with ThreadPoolExecutor(max_workers=8) as ex:
                 res = list(ex.map(run, ids))
         finally:
             sh("git checkout -- . && git clean -fdq")
-        alarms = {c: l for c, n, l in res if n > 0}
-        results[name] = {"alarms": alarms}
-        print(name, "ALARMS " + json.dumps(alarms)[:600] if alarms else "silent"); sys.stdout.flush()
+        alarms = {c: l for c, n, l, u in res if n > 0}
+        undecided = {c: u for c, n, l, u in res if u}
+        results[name] = {"alarms": alarms, "undecided": undecided}
+        print(name, ("ALARMS " + json.dumps(alarms)[:900] if alarms else "silent") + (" UNDECIDED " + json.dumps(undecided)[:300] if undecided else "")); sys.stdout.flush()
     json.dump(results, open("/verif/neutral/results.json", "w"), indent=1)
 if __name__ == "__main__":
     main()
